@@ -129,6 +129,9 @@ func section(s, name string) (string, bool) {
 func c15Run(c *core.C) {
 	r := c.R
 	p := parser.New()
+	// printing is the same before and after serialization, also for tokens composed over an
+	// application symbol table that repeats default names or entries (shared with C07)
+	c07CustomBaseTable(c)
 	for rep := 0; rep < 6; rep++ {
 		params := c15SafeParams()
 		depth := 1 + r.Intn(4)
